@@ -462,6 +462,27 @@ def r5_precondition_guards(ctx):
     if "'null'" not in txt:
         ctx.finding(f, None, 'ChangeField initial guard does not test the new '
                     'null value', key='changefield-null')
+    # the guard applies to every ChangeField, whichever way the rest of
+    # simulate() branches (type change or not): every normal path through
+    # simulate() evaluates it
+    init_tests = [t for t, _lab, _fn in guards if 'self.initial' in
+                  unparse(t.ast)]
+    if init_tests:
+        # the first operand of the guard's condition chain
+        st = init_tests[0].stmt
+        chain = [x for x in g.nodes if x.stmt is st and
+                 x.kind in ('test', 'operand')]
+        w = g.path(g.entry, g.exit, avoid=chain, follow_exc=False)
+        if w is None:
+            ctx.ok(f, 'every normal path through ChangeField.simulate '
+                   'evaluates the missing-initial guard', init_tests[0].ast)
+        else:
+            ctx.finding(f, init_tests[0].ast, 'the "null=False needs an '
+                        'initial value" guard is not evaluated on every '
+                        'path through ChangeField.simulate (it is skipped on '
+                        'a branch): such a ChangeField simulates cleanly, '
+                        'passes the gate and is executed', path=w,
+                        key='initial-guard-not-on-all-paths')
     # DeleteField
     f = p.func('mutations.delete_field', 'DeleteField.simulate')
     g, fails, guards = _fail_guard_tests(ctx, f)
